@@ -470,6 +470,34 @@ theorem construct_defaults (massOf : String → Option Rat) (k : CtorArgs) (a : 
 
 deriving instance DecidableEq for Except
 
+/-- **construct_tables_only.**  A structure WITHOUT atoms keeps the type tables it is given (fix 84d3f69: the
+    no-atoms branch used to drop `atom_type_elements`): the element table is the passed one, labels default to it,
+    masses are looked up for it — so `Atoms(atom_type_elements=[…], pair_coeffs=[…], …)` is a consistent, extendable
+    starting point of a history. -/
+theorem construct_tables_only (massOf : String → Option Rat) (k : CtorArgs) (a : Atoms)
+    (h1 : k.atomTypes = []) (h2 : k.elements = []) (h : construct massOf k = .ok a) :
+    a.atoms = [] ∧ a.typeElems = k.typeElems
+    ∧ (k.typeLabels = [] → a.typeLabels = k.typeElems)
+    ∧ (k.typeLabels ≠ [] → a.typeLabels = k.typeLabels)
+    ∧ (k.typeMasses = [] → a.typeMasses.map some = k.typeElems.map massOf)
+    ∧ (k.typeMasses ≠ [] → a.typeMasses = k.typeMasses) := by
+  have hd := construct_defaults massOf k a h
+  obtain ⟨ms, hm, c, rfl, _, _⟩ := construct_eq massOf k a h
+  have hE : elemsOf k = k.typeElems := by simp [elemsOf, h1, h2]
+  have hT : typesOf k = [] := by simp [typesOf, h1, h2]
+  have hel : (build (resolvedWith k ms)).typeElems = k.typeElems := hE
+  have hpos : k.positions = [] := by
+    have := c.types
+    simp only [resolvedWith, hT, List.length_nil] at this
+    exact List.eq_nil_of_length_eq_zero (by omega)
+  have hat : (build (resolvedWith k ms)).atoms = [] := by
+    have := hd.1
+    rw [hpos] at this
+    exact List.map_eq_nil_iff.mp this
+  refine ⟨hat, hel, ?_, hd.2.2.2.2.2.2.2.1, ?_, hd.2.2.2.2.2.2.2.2.2.1⟩
+  · intro hl; rw [hd.2.2.2.2.2.2.2.2.1 hl, hel]
+  · intro hmz; rw [hd.2.2.2.2.2.2.2.2.2.2.1 hmz, hel]
+
 /-- a small mass table for the examples (the theorems hold for every lookup) -/
 def exMass (s : String) : Option Rat :=
   if s = "C" then some 12 else if s = "H" then some 1 else if s = "O" then some 16 else none
@@ -499,6 +527,14 @@ example : ∃ a, construct exMass exEl = .ok a ∧ WF a
 
 example : ∃ a, construct exMass exTy = .ok a ∧ WF a ∧ a.typeMasses = [12, 5/2] := by
   refine ⟨_, rfl, by decide +kernel, by decide +kernel⟩
+
+/-- tables only: `Atoms(atom_type_elements=["C", "H"])` keeps the table, derives labels and masses, and is `WF` -/
+example : ∃ a, construct exMass { typeElems := ["C", "H"] } = .ok a ∧ a.atoms = [] ∧ a.typeElems = ["C", "H"]
+    ∧ a.typeLabels = ["C", "H"] ∧ a.typeMasses.length = 2 ∧ WF a := by
+  refine ⟨_, rfl, by decide +kernel, by decide +kernel, by decide +kernel, by decide +kernel, by decide +kernel⟩
+example : ∃ a, construct exMass { typeElems := ["C"], typeLabels := ["C1"], typeMasses := [12], pairCoeffs := ["p"] } = .ok a
+    ∧ a.typeElems = ["C"] ∧ a.typeLabels = ["C1"] ∧ a.typeMasses = [12] ∧ WF a := by
+  refine ⟨_, rfl, by decide +kernel, by decide +kernel, by decide +kernel, by decide +kernel⟩
 
 /-- `Atoms()` -/
 example : construct exMass {} = .ok Atoms.empty := by decide +kernel
